@@ -164,7 +164,7 @@ def _dispatcher(log):
     d.handle_orphaned_responses_is_scheduled = False
     d.queue_type = "classic"
     asl_store = stubs.make_engine({"StartAt": "A", "States": {"A": {"Type": "Succeed"}}})[0].asl_store
-    d.state_engine = types.SimpleNamespace(event_dispatcher=stubs.RecDispatcher(log), branch_metadata={}, asl_store=asl_store,
+    d.state_engine = types.SimpleNamespace(event_dispatcher=stubs.RecDispatcher(log), branch_metadata={}, asl_store=asl_store, executions={},
                                            update_execution_history=lambda *a, **k: log.append(("history", a[2], a[3])))
     d.reply_to = types.SimpleNamespace(name="asl_workflow_reply_to-i1")
     d.producer = types.SimpleNamespace(send=lambda m, threadsafe=False: log.append(("send", m)))
